@@ -7,7 +7,7 @@ EXTRA2 = {'C01-m4': ['C07'], 'C06-m4': ['C07'], 'C02-m3': ['C20'], 'C02-m4': ['C
           'C04-m3': ['C04'], 'C04-m4': ['C11'], 'C08-m3': ['C02'], 'C08-m4': ['C13'], 'C10-m3': ['C10'],
           'C13-m3': ['C07'], 'C14-m3': ['C14', 'C15'], 'C15-m4': ['C15', 'C14'], 'C17-m4': ['C08'],
           'C19-m3': ['C19'], 'C01-m3': ['C04'], 'C05-m3': ['C15'], 'C05-m4': ['C20'], 'C06-m3': ['C01', 'C04'], 'C10-m3': ['C10', 'C19']}
-EXTRA4 = {'C06-m5': ['C07'], 'C10-m5': ['C19', 'C10'], 'C12-m6': ['C18'], 'C18-m6': ['C18']}
+EXTRA4 = {'C06-m5': ['C07'], 'C10-m5': ['C19'], 'C12-m6': ['C18'], 'C18-m6': ['C18']}
 EXTRA3 = {'C03-m5': ['C02', 'C03'], 'C08-m6': ['C02'], 'C01-m5': ['C07', 'C01'], 'C01-m6': ['C01', 'C04'], 'C07-m6': ['C07']}
 EXTRA = {'C03-m1': ['C10'], 'C06-m2': ['C04'], 'C17-m2': ['C04', 'C17'], 'C16-m1': ['C09', 'C16'], 'C14-m1': ['C14', 'C15'], 'C15-m1': ['C15', 'C14']}
 res = {}
